@@ -244,8 +244,10 @@ def extLoop (fuel : Nat) (st : State) (payload : Bytes) (pos : Nat) : R State :=
           else if c.id = ccXMP then
             (if c.data.length > maxMetadataSize then (.err .metadataTooLarge : R State)
              else pure { st with xmpData := some c.data })
-          else if c.id = ccANIM then parseANIM st c.data
-          else if c.id = ccANMF then parseANMF st c.data
+          else if c.id = ccANIM then
+            (if st.features.hasAnimation then parseANIM st c.data else pure st)
+          else if c.id = ccANMF then
+            (if st.features.hasAnimation then parseANMF st c.data else (.err .invalidANMF : R State))
           else if c.id = ccVP8 ∨ c.id = ccVP8L ∨ c.id = ccALPH then
             (if !st.features.hasAnimation ∧ st.frames.length = 0 then
                parseSingleExtendedFrame st tail
